@@ -1011,13 +1011,15 @@ class Optimizer(object):
                         # ! dtype="O" is key to avoid converting data to string
                         yi = np.asarray(yi, dtype="O")
                         mask_no_failures = np.where(yi != "F")
-                        yi[mask_no_failures] = (
-                            self.objective_scaler.fit_transform(
-                                np.asarray(yi[mask_no_failures].tolist()).reshape(-1, 1)
+                        # nothing to scale when every observation is a failure
+                        if len(mask_no_failures[0]) > 0:
+                            yi[mask_no_failures] = (
+                                self.objective_scaler.fit_transform(
+                                    np.asarray(yi[mask_no_failures].tolist()).reshape(-1, 1)
+                                )
+                                .reshape(-1)
+                                .tolist()
                             )
-                            .reshape(-1)
-                            .tolist()
-                        )
                         yi = yi.tolist()
                     else:
                         yi = (
